@@ -132,7 +132,7 @@ def gen_node(rng, depth: int, in_def: bool, sugar: bool, big_ok: bool):
         return ['push', push_val(rng, big_ok)]
     if sugar and r < 0.53:
         k = rng.choice(['setvar', 'setvarn', 'loadvar', 'sizevar',
-                        'comptime_push', 'macro'])
+                        'comptime_push', 'macro', 'comptime_exec'])
         nm = rng.choice(VARNAMES)
         if k == 'setvar':
             return ['setvar', nm, [small_val(rng)
@@ -143,6 +143,13 @@ def gen_node(rng, depth: int, in_def: bool, sugar: bool, big_ok: bool):
             return ['loadvar', nm]
         if k == 'sizevar':
             return ['sizevar', nm]
+        if k == 'comptime_exec':
+            # push ~! { push v1 push v2 .. }: the block runs at compile time
+            # and is replaced by the TOP item of its stack
+            vals = [bytes(rng.getrandbits(8) for _ in range(
+                rng.choice((1, 1, 2, 5, 33)))) for _ in range(
+                    rng.choice((1, 2, 2, 3)))]
+            return ['comptime_exec', vals]
         if k == 'comptime_push':
             body = [plain_simple(rng) for _ in range(rng.randrange(1, 4))]
             if DEFINED and rng.random() < 0.3:
